@@ -329,7 +329,7 @@ Qed.
 (* what a successful AddInIssuance leaves behind *)
 Definition v2_issued_input (input : v2in) (a : iss_args) : v2in :=
   mk_v2in (vi_txid input) (vi_index input) (vi_seq input) (ia_asset a) (vi_vcommit input) (ia_token a)
-          (vi_kcommit input) (Some zero32b) (Some (chash_of (ia_contract a))) (Some (ia_blinded a)).
+          (vi_kcommit input) (Some zero32b) (Some (chash_of (ia_contract a))) (Some (ia_blinded a)) (vi_pegin input).
 
 Theorem v2_issuance_outputs_pay_derived_ids p idx a p' :
   v2_add_in_issuance p idx a = (true, p') ->
@@ -427,7 +427,7 @@ Theorem unsigned_and_extract_agree i : unsigned_issuance i = extract_issuance i.
 Proof. reflexivity. Qed.
 
 Definition token_only_input : v2in :=
-  mk_v2in zero32b 0 0 0 None 1 None (Some zero32b) (Some zero32b) (Some false).
+  mk_v2in zero32b 0 0 0 None 1 None (Some zero32b) (Some zero32b) (Some false) true.
 Example token_only_issuance_reaches_the_transaction :
   extract_issuance token_only_input = Some (mk_iss zero32b zero32b [x00] (x01 :: be_enc 8 1)) /\
   unsigned_issuance token_only_input = extract_issuance token_only_input.
@@ -449,7 +449,7 @@ Qed.
 (* ---------- AddInReissuance ---------- *)
 Definition v2_reissued_input (input : v2in) (a : reiss2_args) (entropy : bytes) : v2in :=
   mk_v2in (vi_txid input) (vi_index input) (vi_seq input) (r2_asset a) (vi_vcommit input) (vi_keys input)
-          (vi_kcommit input) (Some (r2_blinder a)) (Some entropy) (vi_blinded input).
+          (vi_kcommit input) (Some (r2_blinder a)) (Some entropy) (vi_blinded input) (vi_pegin input).
 
 Lemma iss_hex32_inv o : iss_hex32 o = true -> exists b, o = Some b /\ length b = 32%nat.
 Proof. destruct o as [b|]; cbn [iss_hex32]; [|discriminate]. intro H. exists b. split; [reflexivity|]. apply Nat.eqb_eq. exact H. Qed.
@@ -490,7 +490,7 @@ Proof.
   exists input, eh, asset, token. cbv zeta. unfold v2_set_in. cbn [v2_ins v2_outs].
   assert (Hset : iss_set_nth (Z.to_nat idx)
             (fun i : v2in => mk_v2in (vi_txid i) (vi_index i) (vi_seq i) (r2_asset a) (vi_vcommit i) (vi_keys i)
-                               (vi_kcommit i) (Some (r2_blinder a)) (Some (rev eh)) (vi_blinded i)) (v2_ins p)
+                               (vi_kcommit i) (Some (r2_blinder a)) (Some (rev eh)) (vi_blinded i) (vi_pegin i)) (v2_ins p)
           = iss_set_nth (Z.to_nat idx) (fun _ => v2_reissued_input input a (rev eh)) (v2_ins p)).
   { clear - Hnth. revert Hnth. generalize (Z.to_nat idx) as k. generalize (v2_ins p) as l.
     induction l as [|x l IH]; intros [|k] Hn; cbn [iss_set_nth nth_error] in *; try reflexivity; try discriminate.
@@ -662,7 +662,7 @@ Qed.
 (* non-vacuity: a concrete call of each updater succeeds *)
 Definition ex_addr (conf : bool) : iss_addr := mk_iss_addr true true conf (repeat (b8 7) 22) (if conf then repeat (b8 2) 33 else []).
 Definition ex_args : iss_args := mk_iss_args 8 (Some tiero_contract) 1000 1 (ex_addr false) (ex_addr false) true.
-Definition ex_v2in : v2in := mk_v2in vec1_hash 68 0 0 None 0 None None None None.
+Definition ex_v2in : v2in := mk_v2in vec1_hash 68 0 0 None 0 None None None None true.
 Definition ex_v2pkt : v2pkt := mk_v2pkt 1 0 true [ex_v2in] [].
 Example v2_add_in_issuance_succeeds : fst (v2_add_in_issuance ex_v2pkt 0 ex_args) = true.
 Proof. vm_compute. reflexivity. Qed.
@@ -872,4 +872,15 @@ Proof.
   destruct (new_tx_issuance _ _ _ _); [|reflexivity].
   destruct (find_empty (t_ins (v0_tx p)) 0) as [[idx fi]|] eqn:FE; [|reflexivity].
   exfalso. apply find_empty_inv in FE as (_ & Hn & He). apply nth_error_In in Hn. rewrite Ins in Hn. exact (All fi Hn He).
+Qed.
+
+(* an input that is also a peg-in claim keeps its issuance in both transaction views, and the
+   peg-in flag of both views is the packet's, whatever the issuance fields are *)
+Theorem pegin_input_keeps_its_issuance i :
+  vi_vcommit i = None -> vi_kcommit i = None ->
+  unsigned_pegin i = vi_pegin i /\ extract_pegin i = vi_pegin i /\
+  unsigned_issuance i = expected_issuance i /\ extract_issuance i = expected_issuance i.
+Proof.
+  intros Hv Hk. destruct (tx_issuance_fields_agree_with_packet i Hv Hk) as [U E].
+  repeat split; assumption.
 Qed.
